@@ -11,6 +11,16 @@ RULE = ("validated models (depth 0-3, all connectives, integer leaves, sharing) 
 
 def split_interp(m, rng):
     d1 = rand_interp(m, rng, p_leaf=rng.choice([0.2, 0.5, 0.8]), p_comp=rng.choice([0, 0.15, 0.3]), point=0.75)
+    if rng.random() < 0.35:
+        # assumptions that keep lower + upper of a leaf unchanged: the exact midpoint of the range, or a symmetric narrowing
+        for l in leaves_of(m):
+            lo, hi = int(l.bounds.lower), int(l.bounds.upper)
+            if hi - lo >= 2 and rng.random() < 0.7:
+                if (lo + hi) % 2 == 0 and rng.random() < 0.6:
+                    d1[l.id] = ((lo + hi) // 2, (lo + hi) // 2)
+                else:
+                    k = rng.randint(1, (hi - lo - 1) // 2) if hi - lo >= 3 else 1
+                    d1[l.id] = (lo + k, hi - k) if lo + k <= hi - k else ((lo + hi) // 2, (lo + hi) // 2)
     d2, union = {}, dict(d1)
     for l in leaves_of(m):
         if l.id in d1:
